@@ -23,7 +23,7 @@ const (
 )
 
 // c14Guard is the tool-failure guard for one whole execution (never an oracle).
-var c14Guard = 240 * time.Second
+var c14Guard = 120 * time.Second
 
 type c14Proc struct {
 	cmd     *exec.Cmd
@@ -46,7 +46,7 @@ type c14Capped struct {
 
 func (c *c14Capped) Write(p []byte) (int, error) {
 	c.mu.Lock()
-	if c.b.Len() < 8192 {
+	if c.b.Len() < 1<<17 {
 		c.b.Write(p)
 	}
 	c.mu.Unlock()
@@ -80,7 +80,9 @@ func c14Start(bin, dir string, env []string, args ...string) (*c14Proc, error) {
 		p.mu.Lock()
 		p.timeout = true
 		p.mu.Unlock()
-		syscall.Kill(-cmd.Process.Pid, syscall.SIGKILL)
+		// SIGQUIT first: the Go runtime of git-lfs dumps all goroutines to stderr (diagnosis of a hang), then SIGKILL
+		syscall.Kill(cmd.Process.Pid, syscall.SIGQUIT)
+		time.AfterFunc(5*time.Second, func() { syscall.Kill(-cmd.Process.Pid, syscall.SIGKILL) })
 	})
 	return p, nil
 }
